@@ -79,6 +79,19 @@ def build_pool(tmp):
     shutil.copy(os.path.join(os.path.dirname(tc.__file__), 'geoschemfiles', 'tracerinfo.dat'), tmp)
     shutil.copy(os.path.join(os.path.dirname(tc.__file__), 'geoschemfiles', 'diaginfo.dat'), tmp)
     add('punch', 'bpch', 'bpch', open(tc.geoschemfiles_paths['bpch'], 'rb').read())
+    # the same punch file next to a tracerinfo.dat that lacks the line of one tracer it holds (supported: such
+    # a tracer is presented under its number)
+    gdir = os.path.join(tmp, 'gc_missing')
+    os.makedirs(gdir)
+    shutil.copy(os.path.join(os.path.dirname(tc.__file__), 'geoschemfiles', 'diaginfo.dat'), gdir)
+    with open(os.path.join(os.path.dirname(tc.__file__), 'geoschemfiles', 'tracerinfo.dat')) as fh:
+        tlines = fh.readlines()
+    with open(os.path.join(gdir, 'tracerinfo.dat'), 'w') as fh:
+        # (tracer number: columns 53-61 of a data line)
+        fh.writelines([ln for ln in tlines if ln.startswith('#') or ln[52:61].strip() != '11'])
+    for name, ext in (('gc_missing/punch11.bpch', True), ('gc_missing/punch11_noext', False)):
+        pool.append({'tag': name, 'fmt': 'bpch', 'path': put(name, open(tc.geoschemfiles_paths['bpch'], 'rb').read()),
+                     'ext': ext, 'selfdesc': True, 'kw': {}})
     # ICARTT with DOS line endings and with trailing blanks on the first line (both legitimate)
     ict = open(tc.icarttfiles_paths['ffi1001'], 'rb').read()
     add('ict_crlf', 'ffi1001', 'ffi1001', ict.replace(b'\r\n', b'\n').replace(b'\n', b'\r\n'))
@@ -188,7 +201,7 @@ def events(pool):
     return ev
 
 
-REDUCED = ('cuthdf.nc', 'cuthdf_noext', 'nc4.ncf', 'nc4_noext', 'probe.sonde', 'avg.uamiv', 'kv.vertical_diffusivity', 'hum.humidity', 'ict.ffi1001', 'nc3.nc', 'io.ioapi', 'punch.bpch',
+REDUCED = ('gc_missing/punch11.bpch', 'gc_missing/punch11_noext', 'cuthdf.nc', 'cuthdf_noext', 'nc4.ncf', 'nc4_noext', 'probe.sonde', 'avg.uamiv', 'kv.vertical_diffusivity', 'hum.humidity', 'ict.ffi1001', 'nc3.nc', 'io.ioapi', 'punch.bpch',
            'ict_crlf.ffi1001', 'cut.humidity', 'cut.nc', 'cut.uamiv', 'kv_noext', 'nc3_noext', 'junk_noext',
            'shared<-uamiv', 'shared<-nc3')
 REDUCED_EXPLICIT = ('avg.uamiv', 'ict.ffi1001', 'hum.humidity', 'kv_noext', 'nc3_noext')
